@@ -61,9 +61,14 @@ class C05(Prop):
             await self.default_bridge.start()
             self.ports += [20002, 10002, 20003, 10003]
         self.tag = 0
-        self.pool = []   # device ids that keep broadcasting with changing details, as real devices do
+        self.pool = []
+        import time_machine
+
+        self._tm = time_machine.travel(1_780_000_000.0, tick=False)
+        self._traveller = self._tm.start()   # device ids that keep broadcasting with changing details, as real devices do
 
     async def teardown(self, ctx):
+        self._tm.stop()
         await self.bridge.stop()
         if self.default_bridge is not None:
             await self.default_bridge.stop()
@@ -96,6 +101,10 @@ class C05(Prop):
             await self.bridge.start()
             acc.count("bridge_restarts")
         sent = []                # (desc, datagram) in send order, exact repeats included
+        if i % 4 == 2:
+            log.raise_on = lambda dev, n: n % 7 == 0     # the user's callback fails now and then: the next broadcast is still delivered
+        self.vnow = getattr(self, "vnow", 1_780_000_000.0) + r.choice([0.4, 13, 61, 3601, 86400 + 17, -20, -5000])
+        self._traveller.move_to(float(self.vnow))
         for k in range(BATCH):
             j = i * BATCH + k
             if self.pool and r.random() < 0.5:
@@ -112,12 +121,23 @@ class C05(Prop):
             data = rb.encode(d, filler=r.randbytes(168) if k % 2 else None)
             sent.append((d, data))
             self.rig.send(port, data)
+            if k % 10 == 3:
+                # what else is on the wire: an undecodable frame of the same device, foreign bytes, an unknown model
+                bad = bytearray(data)
+                bad[42] = 0xFF
+                self.rig.send(port, bytes(bad))
+                self.rig.send(port, r.randbytes(r.randrange(0, 120)))
+                unk = bytearray(data)
+                unk[74:76] = b"\xee\xee"
+                self.rig.send(port, bytes(unk))
+                acc.count("junk_datagrams_between_broadcasts", 3)
             if k % 8 == 5:
                 # a device re-broadcasts its unchanged status: the very same bytes again are one more well-formed broadcast
                 sent.append((d, data))
                 self.rig.send(port, data)
                 acc.count("exact_repeats_sent")
         res = await self.rig.barrier(port)
+        log.raise_on = None
         if res == "dropped":
             acc.count("batches_with_kernel_drops")
             acc.inconclusive_because("kernel dropped datagrams (drops>0 in /proc/net/udp)")
@@ -156,6 +176,8 @@ class C05(Prop):
                 for field, got, want in rb.compare_device(dev, d):
                     acc.violation(f"field-wrong:{cat}:{field}", f"{d['model']} {d['state']} on port {port}, host zone {zone}: {field} = {got!r}, want {want!r}",
                                   {"desc": d, "datagram": data.hex(), "field": field, "got": str(got), "want": str(want), "zone": zone})
+        others = [o for o in others if not (o[0] == "loop_exc" and ("CallbackBoom" in o[1] or "UnicodeDecodeError" in o[1] or "codec can't decode" in o[1]))
+                  and not (o[0] == "warning" and "unknown" in o[1].lower())]
         if others:
             acc.violation("noise-on-well-formed-broadcast", f"well-formed broadcasts caused {others[:3]}", {"events": [str(o) for o in others][:8]})
         if i % 160 == 1:
